@@ -371,19 +371,19 @@ func (fgen *funcGen) irGetElementPtrInst(new ir.Instruction, old *ast.GetElement
 func (gen *generator) gepInstType(elemType, src types.Type, indices []ast.TypeValue) (types.Type, error) {
 	var idxs []gep.Index
 	for _, index := range indices {
-		var idx gep.Index
+		idx := gep.Index{HasVal: false}
 		if indexVal, ok := index.Val().(ast.Constant); ok {
 			idx = gen.getIndex(indexVal)
-		} else {
-			idx = gep.Index{HasVal: false}
-			// Check if index is of vector type.
-			indexType, err := gen.irType(index.Typ())
-			if err != nil {
-				return nil, errors.WithStack(err)
-			}
-			if indexType, ok := indexType.(*types.VectorType); ok {
-				idx.VectorLen = indexType.Len
-			}
+		}
+		// Check if index is of vector type (also for constants such as a vector
+		// zeroinitializer, undef or poison, which do not spell their length).
+		indexType, err := gen.irType(index.Typ())
+		if err != nil {
+			return nil, errors.WithStack(err)
+		}
+		if indexType, ok := indexType.(*types.VectorType); ok {
+			idx.VectorLen = indexType.Len
+			idx.Scalable = indexType.Scalable
 		}
 		idxs = append(idxs, idx)
 	}
@@ -451,9 +451,13 @@ func (gen *generator) getIndex(index ast.Constant) gep.Index {
 					}
 				}
 			default:
-				// TODO: remove debug output.
-				panic(fmt.Errorf("support for gep index vector element type %T not yet implemented", elem))
-				//return gep.Index{HasVal: false}
+				// Not an integer literal (e.g. undef, poison, zeroinitializer or
+				// a constant expression): the index vector does not have a
+				// concrete value.
+				return gep.Index{
+					HasVal:    false,
+					VectorLen: uint64(len(elems)),
+				}
 			}
 		}
 		return gep.Index{
@@ -468,9 +472,8 @@ func (gen *generator) getIndex(index ast.Constant) gep.Index {
 	case *ast.PoisonConst:
 		return gep.Index{HasVal: false}
 	default:
-		// TODO: add support for more constant expressions.
-		// TODO: remove debug output.
-		panic(fmt.Errorf("support for gep index type %T not yet implemented", index))
-		//return gep.Index{HasVal: false}
+		// Any other constant (e.g. a constant expression): the index does not
+		// have a concrete value.
+		return gep.Index{HasVal: false}
 	}
 }
